@@ -206,6 +206,24 @@ def run(cx):
     # after which the queues drain and the flush "completes"
     from props.C02 import inst_resync_guard
     inst_resync_guard(cx, "C09.i")
+    from props.C02 import inst_delivery_guards
+    inst_delivery_guards(cx, "C09.j")
+    with cx.instance("C09.l", "T2 PAIR", "Client::disconnect / disconnect_now while still connecting end the connection at once (state = Fin): no Connect can follow the application's disconnect", floor=2) as inst:
+        for fn in ("client::Client::disconnect", "client::Client::disconnect_now"):
+            db = cx.R.body(fn)
+            dfa = cx.fa(db)
+            fins = [l for l, n, ps in db.field_writes(r"arg1\.state") if n["k"] == "assign" and show(db.rvalue_expr(n["rv"])).startswith("State::Fin")]
+            hit = False
+            for (bb, y, lab), lits in dfa.edge_lits.items():
+                if "is(arg1.state,Pending)" in lits:
+                    hit = True
+                    inst.site(db, Loc(y, 0), "%s: Pending arm" % fn.split("::")[-1])
+                    if db.reach_exit_avoiding(Loc(y, -1), fins) is not None:
+                        inst.violation(db.path, "Pending arm", "%s leaves a connecting client Pending: the handshake goes on and a Connect is reported after the application disconnected" % fn.split("::")[-1])
+            if not hit:
+                inst.violation(db.path, "Pending arm", "no Pending arm found (anchor)")
+    from props.shared import heap_order
+    heap_order(cx, "C09.k", ["event"])
 
 
 SELFTEST = [
